@@ -5,6 +5,7 @@
 package main
 
 import (
+	"time"
 	"encoding/json"
 	"fmt"
 	"sort"
@@ -32,6 +33,14 @@ type scenario struct {
 	closer     string // "client", "queue", "queue2" (two concurrent queue closes), "clientqueue", "none"
 	free       bool
 	stalled    bool // the subscriber of topic A never takes a message (requests stay parked in its buffer until it is closed)
+	slowFirst  bool // the responder answers request r0.0 only after 300 ms; requester 0 waits for it with a 100 ms time-out, gives up and goes on with its next request
+}
+
+// pause sleeps in virtual time under the scheduler and in real time in the free-running pass.
+func pause(ms int64) {
+	if !vrt.SleepFor(ms * 1e6) {
+		time.Sleep(time.Duration(ms) * time.Millisecond)
+	}
 }
 
 func (sc scenario) body(o *obs) func() {
@@ -55,6 +64,9 @@ func (sc scenario) body(o *obs) func() {
 					}
 					p := fmt.Sprint(msg.Data)
 					vrt.Own(func() { o.seen[p]++ })
+					if sc.slowFirst && p == "r0.0" {
+						pause(300)
+					}
 					msg.Reply(rc.NewMessage("", msg.Ty, "echo:"+p))
 				}
 			})
@@ -86,7 +98,17 @@ func (sc scenario) body(o *obs) func() {
 						// a send that started after the close returned may only be accepted if the wait then fails
 						vrt.Own(func() { o.outcomes["send-accepted-after-close"] = true })
 					}
-					resp, err := c.Wait(msg)
+					var resp *queue.Message
+					if sc.slowFirst && payload == "r0.0" {
+						resp, err = c.WaitTimeout(msg, 100*time.Millisecond)
+						if err == queue.ErrQueueTimeout {
+							// the caller gives the request up; it may not free it (the responder still holds it)
+							vrt.Own(func() { o.outcomes["timed-out"] = true })
+							continue
+						}
+					} else {
+						resp, err = c.Wait(msg)
+					}
 					if err != nil {
 						vrt.Own(func() { o.outcomes["wait-error"] = true })
 						if live {
@@ -163,18 +185,19 @@ func main() {
 	r := vx.Start("C36", "model_checking")
 	clog.SetLogLevel("crit")
 	queue.DisableLog()
-	r.Rule = "controlled-scheduler exploration of the instrumented queue package: scenarios {2 requesters x 2 rounds with message recycling, 1-2 responders on 1-2 topics, a closer: responder client.Close / queue.Close / two concurrent queue.Close / client.Close + queue.Close}; every interleaving with <= k preemptions and every select tie-break; states = schedule-tree nodes. distinct = (scenario, outcome class) pairs observed"
+	r.Rule = "controlled-scheduler exploration of the instrumented queue package: scenarios {2 requesters x 2 rounds with message recycling, 1-2 responders on 1-2 topics, a closer: responder client.Close / queue.Close / two concurrent queue.Close / client.Close + queue.Close; a request given up after WaitTimeout whose reply arrives late while its sender's next request is under way}; every interleaving with <= k preemptions and every select tie-break; states = schedule-tree nodes. distinct = (scenario, outcome class) pairs observed"
 	r.Assume = []string{"callers follow the FreeMessage contract (free only after the reply was consumed)", "data races below the synchronisation operations are not modelled (cooperative scheduler)", "timeouts do not fire while a thread can run (virtual time)"}
 	r.StateCounter = "tree_nodes"
 	r.DistinctSet = "outcomes"
 	scs := []scenario{
-		{"S1-clientclose", 2, 2, 1, "client", true, false},
-		{"S2-queueclose", 2, 2, 1, "queue", true, false},
-		{"S3-doubleclose", 1, 1, 1, "queue2", true, false},
-		{"S4-twotopics", 2, 2, 2, "client", true, false},
-		{"S5-client+queue", 1, 2, 1, "clientqueue", true, false},
-		{"S6-noclose", 2, 2, 1, "none", true, false},
-		{"S7-stalled-subscriber-closed", 2, 2, 2, "client", true, true},
+		{"S1-clientclose", 2, 2, 1, "client", true, false, false},
+		{"S2-queueclose", 2, 2, 1, "queue", true, false, false},
+		{"S3-doubleclose", 1, 1, 1, "queue2", true, false, false},
+		{"S4-twotopics", 2, 2, 2, "client", true, false, false},
+		{"S5-client+queue", 1, 2, 1, "clientqueue", true, false, false},
+		{"S6-noclose", 2, 2, 1, "none", true, false, false},
+		{"S7-stalled-subscriber-closed", 2, 2, 2, "client", true, true, false},
+		{"S8-timeout-then-next-request", 2, 2, 1, "none", true, false, true},
 	}
 	bound := r.Pick(2, 3)
 	mk := func(sc scenario) *vx.Sched {
